@@ -431,6 +431,7 @@ func (st *c07State) checkN6() {
 				r.Trivial(c07N6, cRe, pos, "unclassified loop shape")
 				continue
 			}
+			st.checkStepLoop(f, m.b, limit, name+" search loop on "+label+": calendar day step has a progress guard", "the loop of "+FuncName(p, f)+" that searches for a matching "+label, pos)
 			reExit := c07Reach(exit, limit)
 			r.Check(!reExit[m.b] || exit == m.b, c07N6, cRe, pos,
 				"once this field matches, the search can only come back to it through the year-limit test",
